@@ -67,7 +67,7 @@ def fixture_case(ctx, i):
 def run_mode(ctx, res, mode):
     vlib.build_harness()
     vlib.build_cli()
-    n = (150 if ctx.quick else 4000) if mode == "C01" else (100 if ctx.quick else 2500)
+    n = (150 if ctx.quick else 4000) if mode == "C01" else (160 if ctx.quick else 2500)
     cases = [make_case(ctx, i, mode == "C02") for i in range(n)]
     cases += [fixture_case(ctx, i) for i in range(n // 5)]
     vlib.write_ndjson(ctx.path("cases.ndjson"), cases)
